@@ -258,5 +258,17 @@ def run(ctx):
             ctx.count("result=err")
         if m != impl:
             ctx.disagree("generate", l[:5000], m[:300], impl[:300] + " | " + se[-150:])
+    # how many generated RPUs lie inside the hypothesis of C03.write_parse_sound / C01.parse_write_exact
+    # (model-only evaluation of the decidable shape predicate on the real CLI's output)
+    wl = []
+    for (i, _, cfg, popt, lpopt), (rc, out, se) in zip(cases, res):
+        if rc == 0 and out:
+            wl += ["nalu.wf 7c01" + o.hex() for o in out[:3]]
+    wo, _, _ = common.run_lines_sharded(common.MODEL_EXE, wl[:3000])
+    for o in wo:
+        if o.startswith("sesmall="):
+            f = dict(x.split("=") for x in o.split(" "))
+            ctx.count("generated RPU inside the write->parse theorem hypothesis" if f["wf"] == "1"
+                      else "generated RPU outside the theorem hypothesis (%s)" % f["why"])
     ctx.sample({"config": cases[0][2], "model_line": lines[0][:300]})
     ctx.sample({"config": cases[5][2]})
